@@ -57,52 +57,91 @@ def flag_atoms(f):
 def run_cfg(ctx, p, cfg):
     rule_style_forwarding(ctx, p, cfg, "X8")
     with ctx.rule("X1", "colour decision", cfg) as r:
-        f = p.fn(CM_INIT)
-        flags = flag_atoms(f)
-        r.require(set(flags) == {"NO_COLOR", "CLICOLOR_FORCE", "CLICOLOR"}, "three-flags", fn=f, detail="environment flags read: %s" % sorted(flags))
-        want_default = {"NO_COLOR": False, "CLICOLOR_FORCE": False, "CLICOLOR": True}
-        for nm, (e, dflt, clo) in flags.items():
-            r.require(dflt == want_default.get(nm), "default:%s" % nm, fn=f, detail="unset %s counts as %s" % (nm, dflt))
-            cf = p.fn(clo)
-            ce = cf.local_expr(0)
-            nf = cmp_nf(ce)
-            okc = nf is not None and nf[0] == "Ne" and {deep_strip(nf[1])[0], deep_strip(nf[2])[0]} == {"param", "const"} and any(
-                x == ("const", "str", "0") for x in (deep_strip(nf[1]), deep_strip(nf[2])))
-            if not okc and nf is not None and nf[0] == "Ne":
-                # &String vs &str comparison goes through a promoted "0"
-                okc = any(x[0] == "const" and x[2] in ("0",) for x in walk(ce)) or any("promoted" in str(x) for x in walk(ce))
-            r.require(okc, "set-means-not-zero:%s" % nm, fn=cf, detail="flag predicate: %s" % show(ce, 5))
-        names = sorted(flags)
-        atoms = {nm: deep_strip(flags[nm][0]) for nm in names}
+        # the initialiser of COLOR_MODE is followed once per state of the three variables (unset / "0" / anything else):
+        # 27 rows, each with the mode the documented precedence gives
+        init = p.fn(COLOR_MODE)
+        f = None
+        for x in walk(init.local_expr(0)):
+            if x[0] in ("closure", "fnref") and x[1] in p.fns:
+                f = p.fn_loops(x[1])
+                break
+        if f is None:
+            raise AnchorMissing("COLOR_MODE is not initialised from a closure or function of this crate")
+        r.ok("static-uses-this-initialiser", fn=init, detail="COLOR_MODE = Lazy::new(%s)" % f.path)
+
+        def var_name(e):
+            for x in walk(e):
+                if x[0] == "call" and x[1] == "std::env::var" and x[2]:
+                    n_ = deep_strip(x[2][0])
+                    if n_[0] == "const" and n_[1] == "str":
+                        return n_[2]
+            return None
+        names = sorted({var_name(("call", c.callee, tuple(c.arg_exprs()), c.block)) for c in f.calls("std::env::var")} - {None})
+        r.require(set(names) == {"NO_COLOR", "CLICOLOR_FORCE", "CLICOLOR"}, "three-flags", fn=f, detail="environment variables read: %s" % names)
+        STATES = ("unset", "0", "1")
+
+        def is_zero_lit(e):
+            e = deep_strip(e)
+            return e == ("const", "str", "0") or (e[0] == "const" and e[2] in ("0", b"0"))
+
+        def flag_of(e, env):
+            """value of a boolean computed from one variable: unwrap_or(map(var(N), |v| v != "0"), d), or v != "0" / v == "0" itself"""
+            e = deep_strip(e)
+            if e[0] == "call" and e[1] == "core::result::Result::<T, E>::unwrap_or" and len(e[2]) == 2:
+                inner, d = deep_strip(e[2][0]), deep_strip(e[2][1])
+                n_ = var_name(inner)
+                if n_ is None or d[0] != "const" or d[1] != "bool":
+                    return None
+                if env[n_] == "unset":
+                    return bool(d[2])
+                if inner[0] == "call" and inner[1] == "core::result::Result::<T, E>::map":
+                    clo = [x for x in walk(inner[2][1]) if x[0] == "closure" and x[1] in p.fns]
+                    if clo:
+                        ce = p.fn(clo[0][1]).local_expr(0)
+                        nf = cmp_nf(ce)
+                        if nf and nf[0] in ("Ne", "Eq") and (any(is_zero_lit(x) for x in nf[1:]) or any("promoted" in str(x) for x in walk(ce))):
+                            return (env[n_] != "0") == (nf[0] == "Ne")
+                return None
+            nf = cmp_nf(e)
+            if nf and nf[0] in ("Ne", "Eq"):
+                n_ = var_name(e)
+                if n_ is not None and env[n_] != "unset" and (any(is_zero_lit(x) for x in nf[1:]) or any("promoted" in str(x) or (x[0] == "const" and x[1] in ("str", "bytes", "opaque")) for y in nf[1:] for x in walk(y))):
+                    return (env[n_] != "0") == (nf[0] == "Ne")
+            return None
         table = {}
-        for vals in itertools.product([False, True], repeat=len(names)):
+        for vals in itertools.product(STATES, repeat=len(names)):
             env = dict(zip(names, vals))
 
             def choose(si, env=env):
-                d = deep_strip(si.discr)
-                for nm in names:
-                    if d == atoms[nm]:
-                        return [env[nm]]
-                return None
-            outs = q.decision_walk(f, choose, watch_locals=(0,))
+                d = strip(si.discr)
+                if d[0] == "discr":
+                    inner = deep_strip(d[1])
+                    n_ = var_name(inner) if inner[0] == "call" and inner[1] == "std::env::var" else None
+                    if n_ is not None:
+                        return ["Err"] if env[n_] == "unset" else ["Ok"]
+                    return None
+                v = flag_of(si.discr, env)
+                return None if v is None else [v]
+
+            def call_value(t, env=env):
+                e = f._call_expr(t, -1, frozenset(), 30)
+                return flag_of(e, env)
+            outs = q.decision_walk(f, choose, watch_locals=(0,), track={"call_value": call_value, "place_value": lambda pl: None})
             res = set()
             for o in outs:
+                if o.get("stuck") or f.term(o["end"])["k"] != "return":
+                    continue
                 v = o["last"].get(0)
-                if v and v[1][0] == "agg":
-                    res.add(v[1][2])
-                else:
-                    res.add("?")
-            table[tuple(env[n] for n in names)] = res
-        ok_all = True
+                res.add(v[1][2] if v and v[1][0] == "agg" else "?")
+            table[vals] = res
+        dflt = {"NO_COLOR": False, "CLICOLOR_FORCE": False, "CLICOLOR": True}
         for vals, res in sorted(table.items()):
             env = dict(zip(names, vals))
-            want = "Never" if env.get("NO_COLOR") else "Always" if env.get("CLICOLOR_FORCE") else "Never" if not env.get("CLICOLOR") else "Auto"
-            key = ",".join("%s=%d" % (n, env[n]) for n in names)
-            okr = r.require(res == {want}, "row:" + key, fn=f, detail="%s -> %s (expected %s)" % (key, sorted(res), want))
-            ok_all = ok_all and okr
-        ctx.extra["color_table"] = {",".join("%s=%d" % (n, v) for n, v in zip(names, k)): sorted(v2) for k, v2 in table.items()}
-        init = p.fn(COLOR_MODE)
-        r.require(any(x[0] == "closure" and x[1] == CM_INIT for x in walk(init.local_expr(0))), "static-uses-this-initialiser", fn=init, detail="COLOR_MODE = Lazy::new(initialiser)")
+            flag = {n_: (dflt.get(n_, False) if env[n_] == "unset" else env[n_] != "0") for n_ in names}
+            want = "Never" if flag.get("NO_COLOR") else "Always" if flag.get("CLICOLOR_FORCE") else "Never" if not flag.get("CLICOLOR", True) else "Auto"
+            key = ",".join("%s=%s" % (n_, env[n_]) for n_ in names)
+            r.require(res == {want}, "row:" + key, fn=f, detail="%s -> %s (expected %s)" % (key, sorted(res), want))
+        ctx.extra["color_table"] = {",".join("%s=%s" % (n_, v) for n_, v in zip(names, k)): sorted(v2) for k, v2 in table.items()}
 
     with ctx.rule("X2", "writer selection", cfg) as r:
         for path, fd, std in ((IMP_STDOUT, 1, "stdout"), (IMP_STDERR, 2, "stderr")):
@@ -125,9 +164,21 @@ def run_cfg(ctx, p, cfg):
                                 return [tty]
                             raise ShapeUnrecognised("isatty result compared in an unrecognised way: %s" % show(si.discr))
                         return None
-                    outs = q.decision_walk(f, choose, watch_locals=(0,))
+                    def bin_value(rv, tty=tty):
+                        # `1 == isatty(fd)` kept in a variable (a helper's result) and tested later
+                        if rv.get("op") not in ("Eq", "Ne"):
+                            return None
+                        ea, eb = deep_strip(f.expr(rv["a"])), deep_strip(f.expr(rv["b"]))
+                        one = ("const", "int", 1)
+                        other = eb if ea == one else ea if eb == one else None
+                        if other is not None and other[0] == "call" and other[1] == "libc::unix::isatty":
+                            return tty if rv["op"] == "Eq" else (not tty)
+                        return None
+                    outs = q.decision_walk(f, choose, watch_locals=(0,), track={"bin_value": bin_value, "call_value": lambda t: None, "place_value": lambda pl: None})
                     res = set()
                     for o in outs:
+                        if o.get("stuck") or f.term(o["end"])["k"] != "return":
+                            continue
                         v = o["last"].get(0)
                         res.add(v[1][2] if v and v[1][0] == "agg" else "?")
                     want = "Some" if (mode == "Always" or (mode == "Auto" and tty)) else "None"
@@ -289,153 +340,16 @@ def run_cfg(ctx, p, cfg):
                   detail="functions computing the tty operand: %s" % sorted(cone),
                   fail_detail="the `is terminal` operand of do_write (%s) is computed by %s, which read COLOR_MODE: with tty_only, NO_COLOR=1 silences a real terminal and CLICOLOR_FORCE=1 writes to a pipe" % (show(operand, 3), reads))
 
-    with ctx.rule("X5", "SGR buffer bounds", cfg) as r:
-        f = p.fn(SET_STYLE)
-        n_assert = 0
-        for s in panics.sites_in(f):
-            if s.kind == "assert":
-                n_assert += 1
-                why = panics.discharge_by_guard(p, s)
-                vs = panics.valuesets(f)
-                vals = [vs.at_end(s.block, o) for o in s.t["ops"]]
-                r.require(bool(why), "assert:%s" % _akey(s, n_assert), fn=f, site=s.at, detail=why or "",
-                          fail_detail="%s cannot be discharged: operand value sets %s — the SGR buffer is too short for the longest sequence (text + background + `;22`)" % (
-                              s.what, [sorted(v) if v is not None else "TOP" for v in vals]))
-        r.floor("asserts", n_assert, 20 if p.meta.get("overflow_checks") else 9)
-        # the final slice &buf[..=idx] / [..idx+1]
-        idxs = [c for c in f.calls("core::ops::index::Index::index")]
-        r.require(len(idxs) == 1, "one-slice", fn=f, detail="slicing sites: %d" % len(idxs))
-        for c in idxs:
-            arr_ty = c.t["arg_tys"][0]
-            import re
-            m = re.search(r"\[u8; (\d+)\]", arr_ty)
-            rng = strip(c.arg(1))
-            ok = False
-            why = "unrecognised"
-            if m and rng[0] == "agg":
-                n = int(m.group(1))
-                vs = panics.valuesets(f)
-                # find the operand local of the range end in the aggregate statement
-                endvals = None
-                for blk, i, st in f.assigns():
-                    rv = st["rv"]
-                    if rv["k"] == "agg" and rv.get("adt", "").startswith("core::ops::range::Range"):
-                        endvals = vs._operand(vs.OUT.get(blk, {}) if False else _state_before(vs, f, blk, i), rv["fields"][-1])
-                        kind = rv["adt"].rsplit("::", 1)[-1]
-                if endvals is not None:
-                    mx = max(endvals)
-                    ok = mx < n if kind == "RangeToInclusive" else mx <= n
-                    why = "%s end in %s, buffer length %d" % (kind, sorted(endvals), n)
-            r.require(ok, "slice-in-bounds", fn=f, site=c.at, detail=why)
+    with ctx.rule("X5", "SGR sequences and buffer bounds", cfg) as r:
+        # set_style is followed once per shape of Style (2 x 2 x 3 = 12 paths) with constants propagated along the path:
+        # what each shape writes, and whether any store / slice / compiler-inserted check can leave the buffer (rules/sgr.py)
+        from rules import sgr
+        f = p.fn_loops(SET_STYLE)
+        n_checks = sgr.rule_sequences(r, p, f)
+        ctx.extra["sgr_checks_on_paths"] = n_checks
 
-    with ctx.rule("X6", "SGR shape", cfg) as r:
-        f = p.fn(SET_STYLE)
-        stores = []   # (block, offset_expr, value_expr)
-        buf_local = None
-        for blk, i, st in f.assigns():
-            lp = st["lhs"]["p"]
-            if len(lp) == 1 and isinstance(lp[0], dict) and "idx" in lp[0] and st.get("lhs_ty") == "u8":
-                buf_local = st["lhs"]["l"]
-                ie = f.local_expr(lp[0]["idx"])
-                ve = f._rvalue(st["rv"], frozenset(), 30, blk)
-                stores.append((blk, lp[0]["idx"], ve))
-        r.require(buf_local is not None and len(stores) >= 12, "stores-found", fn=f, detail="array stores into the SGR buffer: %d" % len(stores))
-        vs = panics.valuesets(f)
-        # arms by controlling condition
-        style_adt = "encode::Style"
-
-        def arm_of(blk):
-            tags = []
-            for sb, si, al in f.conditions(blk):
-                d = strip(si.discr)
-                labs = sorted(str(si.label(v)) for v, _ in al)
-                e = deep_strip(d[1]) if d[0] == "discr" else deep_strip(d)
-                fld = [x[2] for x in walk(e) if x[0] == "field" and x[1] == ("param", 2)]
-                if fld:
-                    tags.append("%s=%s" % (fld[0], "|".join(labs)))
-                elif any(x[0] == "field" for x in walk(e)):
-                    inner = [x[2] for x in walk(e) if x[0] == "field" and x[2] in ("text", "background", "intense")]
-                    tags.append("%s.val=%s" % (inner[0] if inner else "?", "|".join(labs)))
-            return tuple(tags)
-        byarm = {}
-        for blk, il, ve in stores:
-            base = _offset_from_idx(f, il)
-            byarm.setdefault(arm_of(blk), []).append((base, ve, blk))
-        def val(e):
-            e = strip(e)
-            if e[0] == "const" and e[1] == "int":
-                return chr(e[2])
-            if e[0] == "call" and e[1] == COLOR_BYTE:
-                src = [x[2] for x in walk(e) if x[0] == "field" and x[2] in ("text", "background")]
-                return "color(%s)" % (src[0] if src else "?")
-            return "?"
-        table = {arm: sorted(((b if b is not None else -1), val(v)) for b, v, _ in lst) for arm, lst in byarm.items()}
-        ctx.extra["sgr_table"] = {" & ".join(k) or "prefix": v for k, v in table.items()}
-        want = {
-            (): [(("abs", 0), "\x1b"), (("abs", 1), "["), (("abs", 2), "0")],
-        }
-        pre = sorted(table.get((), []), key=str)
-        r.require([v for _, v in sorted(table.get((), []), key=lambda x: str(x[0]))][:3] == ["\x1b", "[", "0"] or
-                  sorted(v for _, v in table.get((), [])) == sorted(["\x1b", "[", "0", "m"]), "prefix-and-terminator", fn=f,
-                  detail="unconditional stores: %s" % table.get(()))
-        unc = {k: v for k, v in table.get((), [])}
-        r.require(unc.get(("abs", 0)) == "\x1b" and unc.get(("abs", 1)) == "[" and unc.get(("abs", 2)) == "0" and unc.get(("idx", 0)) == "m", "ESC-[-0-...-m", fn=f,
-                  detail="buf[0..3] = ESC [ 0 and buf[idx] = m: %s" % unc)
-        def arm(prefix):
-            for k, v in table.items():
-                if k and all(t.startswith(prefix[i]) for i, t in enumerate(k[:len(prefix)])) and len(k) == len(prefix):
-                    return dict(v)
-            return None
-        t_arm = arm(("text=Some",))
-        b_arm = arm(("background=Some",))
-        r.require(t_arm == {("idx", 0): ";", ("idx", 1): "3", ("idx", 2): "color(text)"}, "text-arm", fn=f, detail="text arm stores: %s" % t_arm)
-        r.require(b_arm == {("idx", 0): ";", ("idx", 1): "4", ("idx", 2): "color(background)"}, "background-arm", fn=f, detail="background arm stores: %s" % b_arm)
-        i_common = arm(("intense=Some",))
-        i_true = None
-        i_false = None
-        for k, v in table.items():
-            if len(k) == 2 and k[0].startswith("intense=Some"):
-                if k[1].endswith("=True") or k[1].endswith("=1"):
-                    i_true = dict(v)
-                elif k[1].endswith("=False") or k[1].endswith("=0"):
-                    i_false = dict(v)
-        r.require(i_common == {("idx", 0): ";"} and i_true == {("idx", 1): "1"} and i_false == {("idx", 1): "2", ("idx", 2): "2"}, "intense-arms", fn=f,
-                  detail="intense: common %s, true %s, false %s" % (i_common, i_true, i_false))
-        # increments match the number of bytes stored per arm
-        incs = {}
-        for blk, i, st in f.assigns():
-            if st["rv"]["k"] == "bin" and st["rv"]["op"] == "Add" and not st["lhs"]["p"]:
-                # release profile: plain (wrapping) add, no overflow assert
-                a_l = st["rv"]["a"].get("copy") or st["rv"]["a"].get("move")
-                c = st["rv"]["b"].get("const")
-                if a_l and not a_l["p"] and a_l["l"] == st["lhs"]["l"] and c and c.get("kind") == "int":
-                    incs[arm_of(blk)] = c["value"]
-            if st["rv"]["k"] == "use" and not st["lhs"]["p"]:
-                src = st["rv"]["a"].get("move") or st["rv"]["a"].get("copy")
-                if src and src["p"] and isinstance(src["p"][0], dict) and src["p"][0].get("f") == "0":
-                    for (dp, b2, i2, kind, payload) in f.defs(src["l"]):
-                        if kind == "rv" and payload["k"] == "bin" and payload["op"] == "AddWithOverflow":
-                            a_l = payload["a"].get("copy") or payload["a"].get("move")
-                            c = payload["b"].get("const")
-                            if a_l and not a_l["p"] and a_l["l"] == st["lhs"]["l"] and c:
-                                incs[arm_of(blk)] = c["value"]
-        ctx.extra["sgr_increments"] = {" & ".join(k): v for k, v in incs.items()}
-        def inc(prefix, n=None):
-            for k, v in incs.items():
-                if len(k) == len(prefix) and all(k[i].startswith(prefix[i]) for i in range(len(prefix))):
-                    if n is None or k[-1].endswith(n):
-                        return v
-            return None
-        r.require(inc(("text=Some",)) == 3 and inc(("background=Some",)) == 3, "increments-text-background", fn=f, detail="idx += %s / %s" % (inc(("text=Some",)), inc(("background=Some",))))
-        it_, if_ = None, None
-        for k, v in incs.items():
-            if len(k) == 2 and k[0].startswith("intense=Some"):
-                if k[1].endswith("True"):
-                    it_ = v
-                if k[1].endswith("False"):
-                    if_ = v
-        r.require(it_ == 2 and if_ == 3, "increments-intense", fn=f, detail="intense true += %s, false += %s" % (it_, if_))
-        # order of the arms: text before background before intense (SGR order is free, but the index chain requires sequential arms)
+    with ctx.rule("X6", "SGR colour table and sink", cfg) as r:
+        f = p.fn_loops(SET_STYLE)
         # color_byte injective onto '0'..'7' in SGR order
         cb = p.fn(COLOR_BYTE)
         outs = q.decision_walk(cb, lambda si: None, watch_locals=(0,))
@@ -447,10 +361,11 @@ def run_cfg(ctx, p, cfg):
                 cmap[labs[-1]] = chr(v[1][2])
         wantc = {"Black": "0", "Red": "1", "Green": "2", "Yellow": "3", "Blue": "4", "Magenta": "5", "Cyan": "6", "White": "7"}
         r.require(cmap == wantc, "color_byte-table", fn=cb, detail="color_byte: %s" % cmap)
-        # slice written is the buffer
+        # the sequence goes to the wrapped writer in one write_all
         wa = f.calls("std::io::Write::write_all")
-        r.require(len(wa) == 1 and deep_strip(wa[0].arg(0)) == ("field", ("param", 1), "0") and any(x[0] == "call" and x[1] == "core::ops::index::Index::index" for x in walk(wa[0].arg(1))), "writes-the-sequence",
-                  fn=f, detail="write_all(&buf[..=idx]) on the wrapped writer")
+        r.require(len(wa) == 1 and deep_strip(wa[0].arg(0)) == ("field", ("param", 1), "0"), "writes-the-sequence", fn=f, detail="one write_all on the wrapped writer")
+        ret = f.local_expr(0)
+        r.require(any(x[0] == "call" and x[1] == "std::io::Write::write_all" for x in walk(ret)), "write-result-returned", fn=f, detail="set_style returns the write's result")
 
     with ctx.rule("X7", "highlight pairing", cfg) as r:
         f = p.fn(FENCODE)
